@@ -107,9 +107,11 @@ func (p *streamstatsProcessor) Process(iqr *iqr.IQR) (*iqr.IQR, error) {
 		knownValues[resultCol] = make([]sutils.CValueEnclosure, iqr.NumberOfRecords())
 	}
 
+	// p.currentIndex and p.currentBucketKey run across Process() calls: the
+	// window elements and the running statistics do too, so the result must
+	// not depend on how the input is cut into batches. They start at their
+	// zero values and are reset by Rewind() and by the reset_* options.
 	bucketKey := ""
-	p.currentBucketKey = bucketKey
-	p.currentIndex = 0
 
 	for i := 0; i < iqr.NumberOfRecords(); i++ {
 		record := make(map[string]interface{})
